@@ -422,7 +422,9 @@ var matrixPats = []string{"web.+", ".+b", ".+b.*", ".*b.+", ".+b.+", ".*web.*", 
 	"^[wd]", "[wd]$", "^(web)", "web$", "^.*$", "^.+$", ".", "..", "\\.", "a\\.b", "\\d+", "\\w+", "web-\\d", "[^a]", "(?i)web",
 	"(?i)w.*", "web|", "(web|db)-1", "(web|db).*", "web-(1|2)0?", "^(a|ab)$", "a|ab", "é.", "日.", "\\bweb", "web\\b",
 	"(?m)^a", "(?s).", "a.*c", "^web-", "-1$", "^(web|db)", "(web|db)$", "^w", "x$", "^web.*", ".*b$", "^.*b$", "^web-[0-9]$",
-	"web-[0-9]+", "^web-[0-9]+$", "(a)(b)", "a(b|c)d", "^$|a", "(^a)", "(a$)", "a|b|c", "ab|cd", "abc|abd"}
+	"web-[0-9]+", "^web-[0-9]+$", "(a)(b)", "a(b|c)d", "^$|a", "(^a)", "(a$)", "a|b|c", "ab|cd", "abc|abd",
+	// expressions that name the separator bytes (as escapes): the value is matched unescaped, the lookups use the marshaled form
+	"a\\x02b", "^\\x01$", "[\\x00-\\x01]", "^\\x00z", "^(\\x01|a\\x02b)$", "\\x02"}
 
 type genState struct {
 	r      *gen.Rand
